@@ -285,7 +285,9 @@ def impl_iab_lookup(k, rows):
     if 0 <= k < 2 ** 48:
         h = "%012X" % k
         text = "-".join(h[i:i + 2] for i in range(0, 12, 2))
-        _same_or_same_exn(lambda: _iab_rec(netaddr.IAB(k)), lambda: _iab_rec(netaddr.IAB(text)), "IAB(int) vs IAB(str)")
+        # upper case, lower case, mixed case and without the hyphens: hexadecimal text denotes the same identifier in any case
+        for t in (text, text.lower(), "".join(c.lower() if n % 3 == 0 else c for n, c in enumerate(text)), h.lower()):
+            _same_or_same_exn(lambda: _iab_rec(netaddr.IAB(k)), lambda: _iab_rec(netaddr.IAB(t)), "IAB(int) vs IAB(%r)" % t)
     i = netaddr.IAB(k)
     out = _iab_rec(i)
     j = pickle.loads(pickle.dumps(i))
@@ -316,8 +318,9 @@ def impl_oui_lookup(k, rows):
     import netaddr, pickle
     if 0 <= k <= 0xFFFFFF:
         h = "%06X" % k
-        _same_or_same_exn(lambda: _oui_recs(netaddr.OUI(k)), lambda: _oui_recs(netaddr.OUI("-".join((h[0:2], h[2:4], h[4:6])))),
-                          "OUI(int) vs OUI(str)")
+        text = "-".join((h[0:2], h[2:4], h[4:6]))
+        for t in (text, text.lower(), "".join(c.lower() if n % 3 == 0 else c for n, c in enumerate(text)), h.lower()):
+            _same_or_same_exn(lambda: _oui_recs(netaddr.OUI(k)), lambda: _oui_recs(netaddr.OUI(t)), "OUI(int) vs OUI(%r)" % t)
     o = netaddr.OUI(k)
     out = _oui_recs(o)
     q = pickle.loads(pickle.dumps(o))
